@@ -419,6 +419,26 @@ func (t *Term) Bounds() (lo, hi *big.Int) {
 	if t.lo != nil {
 		return t.lo, t.hi
 	}
+	if t.IsPred() {
+		if atoms := t.PredAtoms(); len(atoms) > 1 && len(atoms) <= 10 {
+			// exact range of a multilinear polynomial in 0/1 atoms
+			for mask := 0; mask < 1<<len(atoms); mask++ {
+				as := map[*PAtom]bool{}
+				for i, a := range atoms {
+					as[a] = mask>>i&1 == 1
+				}
+				v := t.evalPure(as)
+				if lo == nil || v.Cmp(lo) < 0 {
+					lo = v
+				}
+				if hi == nil || v.Cmp(hi) > 0 {
+					hi = v
+				}
+			}
+			t.lo, t.hi = lo, hi
+			return
+		}
+	}
 	lo, hi = new(big.Int), new(big.Int)
 	for _, m := range t.mons {
 		alo, ahi := bigOne, bigOne
